@@ -70,6 +70,10 @@ def gen(rng, tier):
         if force_twin:
             r = .5 if it_ % 10 == 1 else .9
             ar = False
+        if it_ % 5 == 3:              # every fifth round: an UNCLAMPED surface / volume on [0,1]-free defaults (the default grid
+            r = .9 if it_ % 10 == 3 else .5   # ends are the DOMAIN ends U_p, U_n of every direction, not the first / last knot)
+            ar = False
+            cl = False
         if r < .4:
             d = S.rand_curve(rng, maxp=4, allow_range=ar, clamped=cl)
         elif r < .8:
